@@ -8,7 +8,11 @@ import extract
 from extract import AnchorLost
 
 VERIF = os.path.dirname(HERE)
-BUILD = os.path.join(VERIF, "build")
+# generated units go to /verif/build for the real tree; a check pointed at another tree (VERIF_REPO: seeded / refactored scratch worktrees) gets a build directory of its own,
+# so that it can run next to a check of /repo without the two overwriting each other's generated files; VERIF_BUILD overrides both
+_repo = os.environ.get("VERIF_REPO", "/repo")
+BUILD = os.environ.get("VERIF_BUILD") or (os.path.join(VERIF, "build") if _repo == "/repo" else
+                                           "/var/tmp/verif-build-" + __import__("hashlib").sha1(_repo.encode()).hexdigest()[:8])
 
 PROOF_FAILURE_PATTERNS = [
     ("postcondition", re.compile(r"postcondition not satisfied|unable to prove post-condition of closure")),
